@@ -82,7 +82,7 @@ def run(tier, seed, replay=None):
         plan = bulk.plan_from_replay(bulk_lines)
     else:
         plan = [(k, (seed * 1000 + 500 + n) % (1 << 31), 0, c, b) for n, (k, c, b) in enumerate(BULK[tier if tier in BULK else 'quick'])]
-    bcov = bulk.run_differential(rep, 'C17', plan, {'rel': rel, 'f32': f32}, wd, '%s-%d' % (tier, seed), judge='both') if plan else None
+    bcov = bulk.run_differential(rep, 'C17', plan, {'rel': rel, 'f32': f32}, wd, '%s-%d' % (tier, seed), judge='both', model_calls=(1 << 22) if tier == 'thorough' else (1 << 19)) if plan else None
     extra = {'bulk_differential': bcov, 'force_32bits_compiles_with_crate_lints': compile_ok, 'records_compared': len(lines), 'backend_differences': ndiff,
              'workloads': ['C12', 'C13', 'C14', 'C15']}
     return rep.finish(FLOORS, extra)
